@@ -9,6 +9,10 @@ import (
 
 // ImportFile is a conventional Java file whose imports have known usage (ground truth for C06).
 type ImportFile struct {
+	// Exempt: coca's file filters do not hand this file to the refactoring (its path contains
+	// "testData", ends in Test.java / Tests.java or lies under src/test/java/): nothing is demanded
+	// about its unused imports, but nothing in use may be deleted and its siblings must be cleaned
+	Exempt  bool         `json:"exempt,omitempty"`
 	ID      string       `json:"id"`
 	Path    string       `json:"path"` // relative to the project directory
 	Text    string       `json:"text"`
@@ -52,14 +56,33 @@ func GenImportProject(t *tape.Tape, maxFiles int) []ImportFile {
 		if dir != "" {
 			p = dir + "/" + p
 		}
+		exempt := false
+		if t.Bool(1, 8) {
+			exempt = true
+			switch t.Pick(4) {
+			case 0:
+				cls = "LatestDataCache" // the file NAME contains the substring testData
+			case 1:
+				cls = cls + "Test"
+			case 2:
+				cls = cls + "Tests"
+			default:
+				dir = "src/test/java/" + []string{"a", "m"}[t.Pick(2)]
+			}
+			p = cls + ".java"
+			if dir != "" {
+				p = dir + "/" + p
+			}
+		}
 		p = modules[t.Pick(len(modules))] + p
 		if usedPaths[p] {
 			continue
 		}
 		usedPaths[p] = true
-		f := genImportFile(t, cls, strings.ReplaceAll(dir, "/", "."))
+		f := genImportFile(t, cls, strings.ReplaceAll(strings.TrimPrefix(dir, "src/test/java/"), "/", "."))
 		f.ID = fmt.Sprintf("f%d", i)
 		f.Path = p
+		f.Exempt = exempt
 		files = append(files, f)
 	}
 	return files
